@@ -29,14 +29,16 @@ for i, (h, subj) in enumerate(fixes, 1):
     t.append('| %d | %s | %s | %s | %s |' % (i, h, subj[5:].replace('|', '\\|'), props, '<br>'.join(cells)))
 fixtab = '\n'.join(t)
 
-s = ['| id | property | what it needs to manifest | demo unchanged / changed | baseline with change | caught by (quick tier keys) |', '|---|---|---|---|---|---|']
+s = ['| id | property | what it needs to manifest | demo unchanged / changed | baseline with change | caught by (quick tier keys) | when it arrived |', '|---|---|---|---|---|---|---|']
 for mf in sorted(glob.glob(V + '/seeded/*/meta.json')):
     m = json.load(open(mf))
     cell = []
     for p, c in m.get('checks', {}).items():
         cell.append('%s exit %s: %s' % (p, c['exit'], short(c['keys'], 3) if c['keys'] else '**missed**'))
-    s.append('| %s | %s | %s | %s / %s | %s | %s |' % (m['id'], ','.join(m['breaks_property']), m['needs_to_manifest'].replace('|', '\\|'), m.get('demo_exit_unchanged'), m.get('demo_exit_with_change'),
-                                                  m.get('baseline_with_change', 'not run'), '<br>'.join(cell)))
+    fr = m.get('first_result', 'caught')
+    fr = 'MISSED, check strengthened' if fr.startswith('MISSED') else 'caught by C13 only' if fr.startswith('not observable by C11') else 'caught'
+    s.append('| %s | %s | %s | %s / %s | %s | %s | %s |' % (m['id'], ','.join(m['breaks_property']), m['needs_to_manifest'].replace('|', '\\|'), m.get('demo_exit_unchanged'), m.get('demo_exit_with_change'),
+                                                  m.get('baseline_with_change', 'not run'), '<br>'.join(cell), fr))
 seedtab = '\n'.join(s)
 
 d = open(V + '/DESIGN.md').read()
